@@ -1,6 +1,7 @@
 import DigModel.Proofs.Group
 import DigModel.Proofs.GroupCalled
 import DigModel.Proofs.Just2Api
+import DigModel.Proofs.CalledExit
 /-
   C10 — Value groups deliver every visible member exactly once (undecorated hard groups), and
   C11's counterpart for soft groups lives in Props/C11.lean; both rest on `buildGroup_undecorated`.
@@ -21,6 +22,19 @@ import DigModel.Proofs.Just2Api
     built constructor whose home scope is `S` and whose results declare a value-group result for exactly that
     key — it is that result's value, or one of its slice elements for a `flatten` result.  With `C10_members`:
     members from sibling or descendant scopes, other group names or other element types never appear.
+  * `C10_store_is_the_history_account` (whole programs, no DryRun, invariant `GX` of every operation): in every reachable
+    container the members stored for group key `k` in scope `S` are **exactly, in order and with multiplicity**, what
+    the history accounts for: for each successful execution `(f, x)` of a constructor whose home scope is `S`, the
+    values of its results declared for `k` (`contrib`: one value per grouped result, once per `As` interface equal to
+    the key's type, each slice element for a `flatten` result) — nothing is lost, duplicated or added, whatever was
+    provided, rejected, invoked or failed in between;
+  * `C10_each_built_feeder_ran_exactly_once` (invariants `CE`, `HInv`): a constructor has at most one successful
+    execution in the whole history, and a constructor marked built has exactly one — so each built feeder occurs
+    exactly once in that account;
+  * `C10_delivery_is_the_history_account`: from any reachable container, what an undecorated non-soft group
+    parameter receives is the concatenation over the path to the root of those accounts, taken in the container the
+    request leaves behind, in which every provider of the key on the path is built (`C10_feeders_built`) and has its
+    successful execution in the history.
   "Exactly once however often requested" is C02_once (a built feeder is never executed again) together
   with the fact that committing happens only in a successful execution (C07_failed_writes_nothing).
 -/
@@ -72,6 +86,70 @@ example : slotGroupLeaves [.val (.grouped 0 31 11 "g" true []), .err, .val (.gro
     [({ ty := 11, name := "", group := "g" }, 0, 31, true), ({ ty := 12, name := "", group := "h" }, 2, 12, false),
      ({ ty := 21, name := "", group := "h" }, 2, 12, false)] := by decide
 
+/-- the container at the end of any history satisfies the resolver's well-formedness invariants -/
+private theorem reachable_nb (p : Program) : NBInv p.types (runProgram p).1 :=
+  NBInv.runOps p.ctx p.fns p.ops 0 {} [] (NBInv.init _)
+
+theorem C10_store_is_the_history_account (p : Program) (hnd : p.cfg.dry = false) (S : Nat) (k : Key) :
+    agetL ((runProgram p).1.scope S).groups k =
+      (runProgram p).1.hist.flatMap (evContrib p.ctx (runProgram p).1 S k) :=
+  gx_program p hnd S k
+
+theorem C10_each_built_feeder_ran_exactly_once (p : Program) (hnd : p.cfg.dry = false) (n : Nat) :
+    okExits (.ctor n) (runProgram p).1.hist ≤ 1 ∧
+    (((runProgram p).1.ctor n).called = true →
+      okExits (.ctor n) (runProgram p).1.hist = 1 ∧
+      ∃ x, Event.exit (.ctor n) ((runProgram p).1.ctor n).fn.id x .ok ∈ (runProgram p).1.hist) := by
+  have hi := (reachable_nb p).h
+  refine ⟨(hi.ctorOnce n).1, fun hc => ?_⟩
+  obtain ⟨x, hx⟩ := ce_program p hnd n hc
+  have := okExits_pos_of_mem _ _ _ _ hx
+  have := (hi.ctorOnce n).1
+  exact ⟨by omega, x, hx⟩
+
+theorem C10_delivery_is_the_history_account (p : Program) (hnd : p.cfg.dry = false) (fuel : Nat) (k : Key) (c : Nat)
+    (hd : ∀ s ∈ (runProgram p).1.ancestors c, aget ((runProgram p).1.scope s).decorators k = none)
+    (hg : ∀ s ∈ (runProgram p).1.ancestors c, aget ((runProgram p).1.scope s).decoratedGroups k = none)
+    (v : Val) (st' : St) (h : buildGroup p.ctx (fuel + 1) k false c (runProgram p).1 = (.ok v, st')) :
+    v = .sl (((runProgram p).1.ancestors c).flatMap fun s => st'.hist.flatMap (evContrib p.ctx st' s k)) ∧
+    (∀ s ∈ (runProgram p).1.ancestors c, ∀ n ∈ agetL ((runProgram p).1.scope s).providers k,
+      (st'.ctor n).called = true ∧ ∃ x, Event.exit (.ctor n) (st'.ctor n).fn.id x .ok ∈ st'.hist) := by
+  have hnb := reachable_nb p
+  have hgx := (gx_program p hnd).buildGroup hnd hnb.home (fuel + 1) k false c
+  have hce := (CE.engine (ctx := p.ctx) hnd (fuel + 1)).1 k false c _ (ce_program p hnd)
+  rw [h] at hgx hce
+  simp only at hgx hce
+  refine ⟨?_, fun s hs n hn => ?_⟩
+  · rw [C10_members p.ctx fuel k c _ hd hg v st' h]
+    congr 1
+    exact flatMap_congr' _ _ _ (fun s _ => hgx s k)
+  · have hcl := C10_feeders_built p.ctx _ _ fuel k c _ ⟨hnb.h.valid, rfl, rfl⟩ hd hg v st' h s hs n hn
+    exact ⟨hcl, hce n hcl⟩
+
+/-- non-vacuity (a *test*, run by the evaluator at build time, not a theorem): two constructors feed group "g", the group is
+    consumed twice; the store holds two members and so does the history's account -/
+def demoTypes : List TypeInfo :=
+  [{ id := 0, kind := .iface, elem := none, impl := [], isErr := true },
+   { id := 1, kind := .struct, elem := none, impl := [], isErr := false },
+   { id := 2, kind := .struct, elem := none, impl := [], isErr := false },
+   { id := 10, kind := .ptr, elem := none, impl := [], isErr := false },
+   { id := 20, kind := .slice, elem := some 10, impl := [], isErr := false }]
+def demoIn : GoT := .strct 100
+  [({ name := "In", exported := true, anon := true, tags := {} }, .univ 1),
+   ({ name := "G", exported := true, anon := false, tags := { group := "g" } }, .univ 20)]
+def demoProgram : Program :=
+  { cfg := {}, types := demoTypes,
+    fns := [{ id := 1, name := "a", nonfunc := none, ins := [], variadic := false, outs := [.univ 10] },
+            { id := 2, name := "b", nonfunc := none, ins := [], variadic := false, outs := [.univ 10] },
+            { id := 3, name := "i", nonfunc := none, ins := [demoIn], variadic := false, outs := [] }],
+    script := [], ops := [.provide 0 1 { group := "g" }, .provide 0 2 { group := "g" }, .invoke 0 3 false, .invoke 0 3 false],
+    sameIds := true }
+#guard (agetL ((runProgram demoProgram).1.scope 0).groups ⟨10, "", "g"⟩).length == 2
+#guard ((runProgram demoProgram).1.hist.flatMap (evContrib demoProgram.ctx (runProgram demoProgram).1 0 ⟨10, "", "g"⟩)).length == 2
+
+#print axioms C10_store_is_the_history_account
+#print axioms C10_each_built_feeder_ran_exactly_once
+#print axioms C10_delivery_is_the_history_account
 #print axioms C10_members
 #print axioms C10_members_are_feeders_outputs
 #print axioms C10_feeders_built
